@@ -479,6 +479,17 @@ class C19(PropBase):
                         x.append(v & 0xffffffff)
                 ctxs = "X " + " ".join(map(str, x))
                 dist["x86_ctx"] = dist.get("x86_ctx", 0) + 1
+            elif ctx is not None and rng.chance(1, 8):
+                # an arm64 context through the hook: 33 registers (counts above the 4-entry NEARBY_REGISTER table, up to 33)
+                k = rng.range(0, 33)
+                near = (a ^ (1 << rng.below(12))) & U64
+                r = [((near + rng.range(-4096, 4096)) & U64) if i < k else ctx[i % 17] for i in range(33)]
+                ctxs = "R " + " ".join(map(str, r))
+                dist["arm64_ctx"] = dist.get("arm64_ctx", 0) + 1
+            elif ctx is not None and rng.chance(1, 8):
+                # only some registers valid (MinidumpContextValidity::Some): the others must not count
+                ctxs = "V %d %s" % (rng.below(1 << 17), " ".join(map(str, ctx)))
+                dist["partial_ctx"] = dist.get("partial_ctx", 0) + 1
             cases.append("T %d %d %d %s %s %d" % (a, reg, br, ctxs, self.fmt_regs(kind, regs), op))
             dist["T"] += 1
             dist["with_ctx"] += ctx is not None
@@ -569,6 +580,10 @@ class C19(PropBase):
                 i += 1
             elif t[i] == "X":
                 i += 11
+            elif t[i] == "R":
+                i += 34
+            elif t[i] == "V":
+                i += 19
             else:
                 i += 18
             kind, n = int(t[i]), int(t[i + 1])
